@@ -1676,3 +1676,19 @@ CASES += [
         for clause in self.clauses.iter() {
             let _widest = clause.iter().map(|l| l.label().value()).max().unwrap();"""),
 ]
+
+# ------------------------------------------------------------------ BB5 order loop exits; (PM shared model: no instance today, see seeded C12-r6m1)
+CASES += [
+    dict(name="bb5-break-on-other-test", file=RB, rule="BB", props=["C12"], expect="marginal_map_h:BB5",
+         old="""                for (upper_bound, partialmodel) in order {
+                    // branch + bound
+                    if upper_bound.0 > best_lb {
+                        (best_lb, best_model) = self.marginal_map_h(""",
+         new="""                for (upper_bound, partialmodel) in order {
+                    if best_lb >= 0.5 {
+                        break;
+                    }
+                    // branch + bound
+                    if upper_bound.0 > best_lb {
+                        (best_lb, best_model) = self.marginal_map_h("""),
+]
